@@ -20,6 +20,12 @@
     9  dispatch: the cases of `callBuiltin`, and end-to-end statements for number literals
    10  non-vacuity examples
 
+  Argument lists: `args.spine.2 = .nil` says that `args` is a proper list.  `reduceRest` /
+  `reduceWith` (`+ * - max min`) refuse an improper argument list (dotted tail, or an atom in
+  argument position) with a type error, after the arguments before the tail have been evaluated
+  and folded in; the theorems of sections 6, 7 and 9 come in pairs, proper list / `_improper`,
+  `_dotted`, `_atom_rejects`.
+
   About floats only *which* IEEE operation is applied to *which* operands and the type of the
   result is stated (Lean's `Float` is opaque).
 -/
@@ -507,17 +513,28 @@ theorem maxMinV_rejects (isMax : Bool) (a b : Val) (h : a.toNum? = none ∨ b.to
 
 example : (Val.nil).toNum? = none ∨ (Val.int 1).toNum? = none := Or.inl rfl
 
-/-- the three equations of `reduceWith`: no argument ... -/
-theorem reduceWith_atom (r : Rec) (method : Val → Val → M Val) (args : Val)
-    (h : args.isCons = false) : reduceWith r method args = pure .nil := by
-  cases args <;> first | rfl | simp [Val.isCons] at h
+/-- the equations of `reduceWith`: no argument ... -/
+theorem reduceWith_nil (r : Rec) (method : Val → Val → M Val) :
+    reduceWith r method .nil = pure .nil := rfl
+
+/-- ... an argument "list" that is neither a cons cell nor `nil` is a type error ... -/
+theorem reduceWith_atom_rejects (r : Rec) (method : Val → Val → M Val) (args : Val)
+    (h : args.isCons = false) (hn : args ≠ .nil) :
+    reduceWith r method args = M.throw .typeMismatch := by
+  cases args <;> first | rfl | exact absurd rfl hn | simp [Val.isCons] at h
 
 /-- ... exactly one argument: it is evaluated and has to be a number ... -/
-theorem reduceWith_single (r : Rec) (method : Val → Val → M Val) (i : Nat) (a d : Val)
-    (h : d.isCons = false) :
-    reduceWith r method (.cons i a d) =
-      r.eval a >>= fun first => if first.isNumber then pure first else M.throw .typeMismatch := by
-  cases d <;> first | rfl | simp [Val.isCons] at h
+theorem reduceWith_single (r : Rec) (method : Val → Val → M Val) (i : Nat) (a : Val) :
+    reduceWith r method (.cons i a .nil) =
+      r.eval a >>= fun first => if first.isNumber then pure first else M.throw .typeMismatch :=
+  rfl
+
+/-- ... one argument followed by a dotted tail (an improper argument list): the argument is
+    evaluated, then the list is refused with a type error, whatever the value was ... -/
+theorem reduceWith_dotted (r : Rec) (method : Val → Val → M Val) (i : Nat) (a d : Val)
+    (h : d.isCons = false) (hn : d ≠ .nil) :
+    reduceWith r method (.cons i a d) = r.eval a >>= fun _ => M.throw .typeMismatch := by
+  cases d <;> first | rfl | exact absurd rfl hn | simp [Val.isCons] at h
 
 /-- ... two or more: the first value is the initial accumulator of `reduceRest`. -/
 theorem reduceWith_many (r : Rec) (method : Val → Val → M Val) (i j : Nat) (a b d : Val) :
@@ -526,18 +543,27 @@ theorem reduceWith_many (r : Rec) (method : Val → Val → M Val) (i j : Nat) (
 
 /-- A single argument that evaluates to a non-number is a type error (for an arbitrary
     evaluator `r`). -/
-theorem reduceWith_single_rejects (r : Rec) (method : Val → Val → M Val) (i : Nat) (a d v : Val)
-    (c c' : Ctx) (hd : d.isCons = false) (hev : r.eval a c = (.ok v, c'))
+theorem reduceWith_single_rejects (r : Rec) (method : Val → Val → M Val) (i : Nat) (a v : Val)
+    (c c' : Ctx) (hev : r.eval a c = (.ok v, c'))
     (hv : v.isNumber = false) :
-    reduceWith r method (.cons i a d) c = (.err .typeMismatch, c') := by
-  rw [reduceWith_single r method i a d hd, bind_apply, M.bind_ok hev, hv]; rfl
+    reduceWith r method (.cons i a .nil) c = (.err .typeMismatch, c') := by
+  rw [reduceWith_single r method i a, bind_apply, M.bind_ok hev, hv]; rfl
 
 /-- A single argument that evaluates to a number is returned unchanged. -/
-theorem reduceWith_single_number (r : Rec) (method : Val → Val → M Val) (i : Nat) (a d v : Val)
-    (c c' : Ctx) (hd : d.isCons = false) (hev : r.eval a c = (.ok v, c'))
+theorem reduceWith_single_number (r : Rec) (method : Val → Val → M Val) (i : Nat) (a v : Val)
+    (c c' : Ctx) (hev : r.eval a c = (.ok v, c'))
     (hv : v.isNumber = true) :
-    reduceWith r method (.cons i a d) c = (.ok v, c') := by
-  rw [reduceWith_single r method i a d hd, bind_apply, M.bind_ok hev, hv]; rfl
+    reduceWith r method (.cons i a .nil) c = (.ok v, c') := by
+  rw [reduceWith_single r method i a, bind_apply, M.bind_ok hev, hv]; rfl
+
+/-- A single argument followed by a dotted tail is a type error — number or not — after the
+    argument has been evaluated (its effects on the context are kept). -/
+theorem reduceWith_dotted_rejects (r : Rec) (method : Val → Val → M Val) (i : Nat) (a d v : Val)
+    (c c' : Ctx) (hd : d.isCons = false) (hn : d ≠ .nil) (hev : r.eval a c = (.ok v, c')) :
+    reduceWith r method (.cons i a d) c = (.err .typeMismatch, c') := by
+  rw [reduceWith_dotted r method i a d hd hn, bind_apply, M.bind_ok hev]; rfl
+
+example : (Val.int 3).isCons = false ∧ Val.int 3 ≠ .nil := ⟨rfl, by simp⟩
 
 /-! ## 7. n-ary operations are left folds -/
 
@@ -572,34 +598,67 @@ theorem foldVals_append (method : Val → Val → M Val) (vs ws : List Val) :
     rw [M.bind_assoc]
     congr 1; funext a; exact ih a
 
-/-- the two equations of `reduceRest` (arbitrary evaluator `r`): a cons cell — evaluate its
+/-- the three equations of `reduceRest` (arbitrary evaluator `r`): a cons cell — evaluate its
     form, apply `method` to the accumulator and the value, go on with the rest ... -/
 theorem reduceRest_cons (r : Rec) (method : Val → Val → M Val) (acc : Val) (i : Nat) (a d : Val) :
     reduceRest r method acc (.cons i a d) =
       r.eval a >>= fun v => method acc v >>= fun acc' => reduceRest r method acc' d := rfl
 
-/-- ... anything else ends the list. -/
-theorem reduceRest_atom (r : Rec) (method : Val → Val → M Val) (acc d : Val)
-    (h : d.isCons = false) : reduceRest r method acc d = pure acc := by
-  cases d <;> first | rfl | simp [Val.isCons] at h
+/-- ... `nil` ends the list: the accumulator is the result ... -/
+theorem reduceRest_nil (r : Rec) (method : Val → Val → M Val) (acc : Val) :
+    reduceRest r method acc .nil = pure acc := rfl
 
-/-- `reduceRest` is the left fold, over the argument *forms* in order, of the step "evaluate the
-    form, then immediately apply `method`": each form is evaluated exactly once. -/
-theorem reduceRest_eq_foldVals (r : Rec) (method : Val → Val → M Val) (args : Val) :
+/-- ... any other atom (the dotted tail of an improper argument list) is a type error. -/
+theorem reduceRest_atom_rejects (r : Rec) (method : Val → Val → M Val) (acc d : Val)
+    (h : d.isCons = false) (hn : d ≠ .nil) :
+    reduceRest r method acc d = M.throw .typeMismatch := by
+  cases d <;> first | rfl | exact absurd rfl hn | simp [Val.isCons] at h
+
+/-- For every argument value, proper list or not: `reduceRest` is the left fold, over the
+    argument *forms* in order, of the step "evaluate the form, then immediately apply `method`"
+    (each form is evaluated exactly once), followed by `reduceRest` on the final tail
+    `args.spine.2` of the list. -/
+theorem reduceRest_eq_foldVals_tail (r : Rec) (method : Val → Val → M Val) (args : Val) :
     ∀ acc, reduceRest r method acc args =
-      foldVals (fun acc a => r.eval a >>= fun v => method acc v) acc args.elems := by
+      foldVals (fun acc a => r.eval a >>= fun v => method acc v) acc args.elems
+        >>= fun acc' => reduceRest r method acc' args.spine.2 := by
   induction args with
   | cons i a d _ ihd =>
     intro acc
-    rw [reduceRest_cons]
-    show _ = M.bind (M.bind (r.eval a) (fun v => method acc v)) _
-    rw [M.bind_assoc]
+    rw [reduceRest_cons, spine_cons]
+    show _ = M.bind (M.bind (M.bind (r.eval a) (fun v => method acc v)) _) _
+    rw [M.bind_assoc, M.bind_assoc]
     show M.bind _ _ = _
     congr 1; funext v
-    show M.bind _ _ = _
+    show M.bind _ _ = M.bind _ _
     congr 1; funext acc'
     exact ihd acc'
-  | _ => intro acc; rfl
+  | _ =>
+    intro acc
+    show _ = M.bind (M.pure acc) _
+    rw [M.pure_bind]; rfl
+
+/-- On a proper argument list (final tail `nil`) `reduceRest` is exactly that left fold. -/
+theorem reduceRest_eq_foldVals (r : Rec) (method : Val → Val → M Val) (args : Val)
+    (hp : args.spine.2 = .nil) :
+    ∀ acc, reduceRest r method acc args =
+      foldVals (fun acc a => r.eval a >>= fun v => method acc v) acc args.elems := by
+  intro acc
+  rw [reduceRest_eq_foldVals_tail, hp]
+  exact M.bind_pure _
+
+/-- On an improper argument list (final tail not `nil`) the same left fold runs first — every
+    form is evaluated and folded in — and then the list is refused with a type error (unless the
+    fold has already failed). -/
+theorem reduceRest_eq_foldVals_improper (r : Rec) (method : Val → Val → M Val) (args : Val)
+    (hp : args.spine.2 ≠ .nil) :
+    ∀ acc, reduceRest r method acc args =
+      foldVals (fun acc a => r.eval a >>= fun v => method acc v) acc args.elems
+        >>= fun _ => M.throw .typeMismatch := by
+  intro acc
+  rw [reduceRest_eq_foldVals_tail]
+  congr 1; funext acc'
+  exact reduceRest_atom_rejects r method acc' _ (spine_snd_not_cons args) hp
 
 /-- a cons list with the given cell identities and forms, ending in `tl` -/
 def consList (xs : List (Nat × Val)) (tl : Val) : Val :=
@@ -610,6 +669,13 @@ theorem elems_consList (xs : List (Nat × Val)) (tl : Val) :
   induction xs with
   | nil => rfl
   | cons p xs ih => simp [consList, Val.elems] at ih ⊢; exact ih
+
+/-- the final tail of a `consList` is the final tail of its tail -/
+theorem spine_snd_consList (xs : List (Nat × Val)) (tl : Val) :
+    (consList xs tl).spine.2 = tl.spine.2 := by
+  induction xs with
+  | nil => rfl
+  | cons p xs ih => exact ih
 
 /-- every value is a `consList` over a non-cons tail -/
 theorem exists_consList (v : Val) : ∃ xs tl, tl.isCons = false ∧ v = consList xs tl := by
@@ -624,31 +690,57 @@ theorem reduceRest_append (r : Rec) (method : Val → Val → M Val) (xs : List 
     (rest : Val) : ∀ acc,
     reduceRest r method acc (consList xs rest) =
       reduceRest r method acc (consList xs .nil) >>= fun a => reduceRest r method a rest := by
-  intro acc
-  rw [reduceRest_eq_foldVals, reduceRest_eq_foldVals, elems_consList, elems_consList,
-    foldVals_append]
-  show M.bind _ _ = M.bind _ _
-  simp only [Val.elems, List.append_nil]
-  congr 1; funext a
-  exact (reduceRest_eq_foldVals r method rest a).symm
+  induction xs with
+  | nil =>
+    intro acc
+    show _ = M.bind (M.pure acc) _
+    rw [M.pure_bind]; rfl
+  | cons p xs ih =>
+    intro acc
+    show M.bind (r.eval p.2) (fun v => M.bind (method acc v)
+          (fun acc' => reduceRest r method acc' (consList xs rest)))
+       = M.bind (M.bind (r.eval p.2) (fun v => M.bind (method acc v)
+          (fun acc' => reduceRest r method acc' (consList xs .nil)))) _
+    rw [M.bind_assoc]
+    congr 1; funext v
+    rw [M.bind_assoc]
+    congr 1; funext acc'
+    exact ih acc'
 
 /-- an evaluator that returns `g a` for the form `a` and leaves the context alone (such as the
-    real evaluator on literals): `reduceRest` is then the fold of `method` over the values -/
-theorem reduceRest_pure (r : Rec) (method : Val → Val → M Val) (g : Val → Val) (args : Val)
-    (hg : ∀ a ∈ args.elems, ∀ c, r.eval a c = (.ok (g a), c)) :
-    ∀ acc, reduceRest r method acc args = foldVals method acc (args.elems.map g) := by
-  intro acc
-  rw [reduceRest_eq_foldVals]
-  generalize args.elems = l at hg
-  induction l generalizing acc with
-  | nil => rfl
+    real evaluator on literals): the fold of "evaluate, then apply `method`" over the forms is
+    then the fold of `method` over the values -/
+theorem foldVals_eval_pure (r : Rec) (method : Val → Val → M Val) (g : Val → Val) (l : List Val)
+    (hg : ∀ a ∈ l, ∀ c, r.eval a c = (.ok (g a), c)) :
+    ∀ acc, foldVals (fun acc a => r.eval a >>= fun v => method acc v) acc l
+      = foldVals method acc (l.map g) := by
+  induction l with
+  | nil => intro acc; rfl
   | cons a l ih =>
+    intro acc
     rw [foldVals_cons, List.map_cons, foldVals_cons]
     have h1 : r.eval a = M.pure (g a) := by funext c; exact hg a (by simp) c
     show M.bind (M.bind (r.eval a) _) _ = M.bind _ _
     rw [h1, M.pure_bind]
     congr 1; funext a'
-    exact ih a' (fun a ha c => hg a (by simp [ha]) c)
+    exact ih (fun a ha c => hg a (by simp [ha]) c) a'
+
+/-- ... so on a proper argument list `reduceRest` is the fold of `method` over the values -/
+theorem reduceRest_pure (r : Rec) (method : Val → Val → M Val) (g : Val → Val) (args : Val)
+    (hp : args.spine.2 = .nil)
+    (hg : ∀ a ∈ args.elems, ∀ c, r.eval a c = (.ok (g a), c)) :
+    ∀ acc, reduceRest r method acc args = foldVals method acc (args.elems.map g) := by
+  intro acc
+  rw [reduceRest_eq_foldVals r method args hp, foldVals_eval_pure r method g _ hg]
+
+/-- ... and on an improper argument list it is that fold followed by a type error -/
+theorem reduceRest_pure_improper (r : Rec) (method : Val → Val → M Val) (g : Val → Val)
+    (args : Val) (hp : args.spine.2 ≠ .nil)
+    (hg : ∀ a ∈ args.elems, ∀ c, r.eval a c = (.ok (g a), c)) :
+    ∀ acc, reduceRest r method acc args =
+      foldVals method acc (args.elems.map g) >>= fun _ => M.throw .typeMismatch := by
+  intro acc
+  rw [reduceRest_eq_foldVals_improper r method args hp, foldVals_eval_pure r method g _ hg]
 
 /-- value level = number level: folding `arithV` over numbers is `liftNum` of the fold of
     `arith` in `Except`, for every argument count -/
@@ -775,12 +867,14 @@ theorem neg_dispatch (r : Rec) (i : Nat) (a : Val) :
 theorem sub_dispatch (r : Rec) (i j : Nat) (a b d : Val) :
     callBuiltin r .sub (.cons i a (.cons j b d))
       = reduceWith r (arithV .sub) (.cons i a (.cons j b d)) := rfl
-/-- `/`: all arguments are evaluated first; a zero among the divisors (integer or float) is
-    refused before any division; then the left fold -/
+/-- `/`: all arguments are evaluated first; a single argument is divided into `1` (the
+    reciprocal), a zero single argument is refused; with two or more arguments a zero among the
+    divisors (integer or float) is refused before any division; then the left fold -/
 theorem div_dispatch (r : Rec) (args : Val) :
     callBuiltin r .div args = evalEach r args >>= fun vs =>
       match vs with
       | [] => pure .nil
+      | [x] => if isZeroNum x then M.throw .undefined else arithV .div (.int 1) x
       | first :: rest =>
         if rest.any isZeroNum then M.throw .undefined else foldVals (arithV .div) first rest := rfl
 theorem max_dispatch (r : Rec) (args : Val) :
@@ -832,11 +926,12 @@ theorem evalEach_nums (r : Rec) (hr : SelfEval r) (args : Val) :
     | nil => rfl
     | cons n ns => simp [Val.elems] at h
 
-/-- End to end, n-ary: for every argument count ≥ 1 and all number arguments `n, ns`, reducing
-    the argument list with an arithmetic operator is the left fold of `arith` — the result is
-    `liftNum` of it (value, or OutOfRange), the context is unchanged. -/
+/-- End to end, n-ary: for every argument count ≥ 1 and all number arguments `n, ns` (a proper
+    argument list), reducing the argument list with an arithmetic operator is the left fold of
+    `arith` — the result is `liftNum` of it (value, or OutOfRange), the context is unchanged. -/
 theorem reduceWith_arith_nums (r : Rec) (hr : SelfEval r) (op : ArithOp) (args : Val)
-    (n : Num) (ns : List Num) (h : args.elems = (n :: ns).map Num.toVal) :
+    (n : Num) (ns : List Num) (hp : args.spine.2 = .nil)
+    (h : args.elems = (n :: ns).map Num.toVal) :
     reduceWith r (arithV op) args = liftNum (List.foldlM (arith op) n ns) := by
   cases args with
   | cons i a d =>
@@ -847,24 +942,72 @@ theorem reduceWith_arith_nums (r : Rec) (hr : SelfEval r) (op : ArithOp) (args :
     | cons j b d' =>
       rw [reduceWith_many]
       show M.bind _ _ = _
-      rw [he, M.pure_bind, reduceRest_pure r (arithV op) id]
+      rw [he, M.pure_bind, reduceRest_pure r (arithV op) id (.cons j b d') hp]
       · rw [List.map_id, h2, foldVals_arithV]
       · intro a ha c
         rw [h2] at ha
         obtain ⟨m, _, rfl⟩ := List.mem_map.mp ha
         exact hr m c
+    | nil =>
+      cases ns with
+      | cons m ms => simp [Val.elems] at h2
+      | nil =>
+        rw [reduceWith_single]
+        show M.bind _ _ = _
+        rw [he, M.pure_bind, isNumber_toVal]; rfl
+    | _ => all_goals exact absurd hp (by simp [Val.spine])
+  | _ => all_goals simp [Val.elems] at h
+
+/-- The same arguments in an improper argument list (dotted tail): the same left fold runs, and
+    then the list is refused with a type error (unless the fold has already overflowed). -/
+theorem reduceWith_arith_nums_improper (r : Rec) (hr : SelfEval r) (op : ArithOp) (args : Val)
+    (n : Num) (ns : List Num) (hp : args.spine.2 ≠ .nil)
+    (h : args.elems = (n :: ns).map Num.toVal) :
+    reduceWith r (arithV op) args =
+      liftNum (List.foldlM (arith op) n ns) >>= fun _ => M.throw .typeMismatch := by
+  cases args with
+  | cons i a d =>
+    simp only [Val.elems, List.map_cons, List.cons.injEq] at h
+    obtain ⟨rfl, h2⟩ := h
+    have he : r.eval n.toVal = M.pure n.toVal := by funext c; exact hr n c
+    cases d with
+    | cons j b d' =>
+      rw [reduceWith_many]
+      show M.bind _ _ = _
+      rw [he, M.pure_bind, reduceRest_pure_improper r (arithV op) id (.cons j b d') hp]
+      · rw [List.map_id, h2, foldVals_arithV]
+      · intro a ha c
+        rw [h2] at ha
+        obtain ⟨m, _, rfl⟩ := List.mem_map.mp ha
+        exact hr m c
+    | nil => exact absurd rfl hp
     | _ =>
       all_goals
         (cases ns with
          | cons m ms => simp [Val.elems] at h2
          | nil =>
-           rw [reduceWith_single _ _ _ _ _ rfl]
+           rw [reduceWith_dotted _ _ _ _ _ rfl (by simp)]
            show M.bind _ _ = _
-           rw [he, M.pure_bind, isNumber_toVal]; rfl)
+           rw [he, M.pure_bind]; rfl)
   | _ => all_goals simp [Val.elems] at h
 
+/-- ... spelled out: a type error, or the range error of the overflowing fold; never a value;
+    the context is unchanged. -/
+theorem reduceWith_arith_nums_improper_rejects (r : Rec) (hr : SelfEval r) (op : ArithOp)
+    (args : Val) (n : Num) (ns : List Num) (hp : args.spine.2 ≠ .nil)
+    (h : args.elems = (n :: ns).map Num.toVal) (c : Ctx) :
+    reduceWith r (arithV op) args c =
+      match List.foldlM (arith op) n ns with
+      | .ok _ => (.err .typeMismatch, c)
+      | .error _ => (.err .outOfRange, c) := by
+  rw [reduceWith_arith_nums_improper r hr op args n ns hp h, bind_apply]
+  cases hf : List.foldlM (arith op) n ns with
+  | ok x => rfl
+  | error e => rw [int_fold_error op ns n e hf]; rfl
+
 theorem reduceWith_maxMin_nums (r : Rec) (hr : SelfEval r) (isMax : Bool) (args : Val)
-    (n : Num) (ns : List Num) (h : args.elems = (n :: ns).map Num.toVal) :
+    (n : Num) (ns : List Num) (hp : args.spine.2 = .nil)
+    (h : args.elems = (n :: ns).map Num.toVal) :
     reduceWith r (maxMinV isMax) args = pure (List.foldl (maxMin isMax) n ns).toVal := by
   cases args with
   | cons i a d =>
@@ -875,20 +1018,53 @@ theorem reduceWith_maxMin_nums (r : Rec) (hr : SelfEval r) (isMax : Bool) (args 
     | cons j b d' =>
       rw [reduceWith_many]
       show M.bind _ _ = _
-      rw [he, M.pure_bind, reduceRest_pure r (maxMinV isMax) id]
+      rw [he, M.pure_bind, reduceRest_pure r (maxMinV isMax) id (.cons j b d') hp]
       · rw [List.map_id, h2, foldVals_maxMinV]
       · intro a ha c
         rw [h2] at ha
         obtain ⟨m, _, rfl⟩ := List.mem_map.mp ha
         exact hr m c
+    | nil =>
+      cases ns with
+      | cons m ms => simp [Val.elems] at h2
+      | nil =>
+        rw [reduceWith_single]
+        show M.bind _ _ = _
+        rw [he, M.pure_bind, isNumber_toVal]; rfl
+    | _ => all_goals exact absurd hp (by simp [Val.spine])
+  | _ => all_goals simp [Val.elems] at h
+
+/-- `max` / `min` of numbers in an improper argument list: a type error, context unchanged. -/
+theorem reduceWith_maxMin_nums_improper (r : Rec) (hr : SelfEval r) (isMax : Bool) (args : Val)
+    (n : Num) (ns : List Num) (hp : args.spine.2 ≠ .nil)
+    (h : args.elems = (n :: ns).map Num.toVal) :
+    reduceWith r (maxMinV isMax) args = M.throw .typeMismatch := by
+  cases args with
+  | cons i a d =>
+    simp only [Val.elems, List.map_cons, List.cons.injEq] at h
+    obtain ⟨rfl, h2⟩ := h
+    have he : r.eval n.toVal = M.pure n.toVal := by funext c; exact hr n c
+    cases d with
+    | cons j b d' =>
+      rw [reduceWith_many]
+      show M.bind _ _ = _
+      rw [he, M.pure_bind, reduceRest_pure_improper r (maxMinV isMax) id (.cons j b d') hp]
+      · rw [List.map_id, h2, foldVals_maxMinV]
+        show M.bind (M.pure _) _ = _
+        rw [M.pure_bind]
+      · intro a ha c
+        rw [h2] at ha
+        obtain ⟨m, _, rfl⟩ := List.mem_map.mp ha
+        exact hr m c
+    | nil => exact absurd rfl hp
     | _ =>
       all_goals
         (cases ns with
          | cons m ms => simp [Val.elems] at h2
          | nil =>
-           rw [reduceWith_single _ _ _ _ _ rfl]
+           rw [reduceWith_dotted _ _ _ _ _ rfl (by simp)]
            show M.bind _ _ = _
-           rw [he, M.pure_bind, isNumber_toVal]; rfl)
+           rw [he, M.pure_bind])
   | _ => all_goals simp [Val.elems] at h
 
 theorem len_eq_length_elems (v : Val) : v.len = v.elems.length := by
@@ -911,18 +1087,82 @@ theorem cmp_nums (r : Rec) (hr : SelfEval r) (b : Bi) (op : CmpOp) (hb : cmpOf b
   exact cmpChain_spec op _ ns (allNums_toVal ns) c
 
 
-/-- End to end, `/`: a zero divisor is refused (`Undefined`), else the left fold of the
-    truncating / IEEE division. -/
-theorem div_nums (r : Rec) (hr : SelfEval r) (args : Val) (n : Num) (ns : List Num)
-    (h : args.elems = (n :: ns).map Num.toVal) (c : Ctx) :
+/-- End to end, `/` with two or more arguments: a zero divisor is refused (`Undefined`), else the
+    left fold of the truncating / IEEE division. -/
+theorem div_nums (r : Rec) (hr : SelfEval r) (args : Val) (n m : Num) (ns : List Num)
+    (h : args.elems = (n :: m :: ns).map Num.toVal) (c : Ctx) :
     callBuiltin r .div args c =
-      if (ns.map Num.toVal).any isZeroNum then (.err .undefined, c)
-      else liftNum (List.foldlM (arith .div) n ns) c := by
-  rw [div_dispatch, bind_apply, M.bind_ok (evalEach_nums r hr args (n :: ns) h c)]
+      if ((m :: ns).map Num.toVal).any isZeroNum then (.err .undefined, c)
+      else liftNum (List.foldlM (arith .div) n (m :: ns)) c := by
+  rw [div_dispatch, bind_apply, M.bind_ok (evalEach_nums r hr args (n :: m :: ns) h c)]
   simp only [List.map_cons]
   split
   · rfl
-  · rw [foldVals_arithV]
+  · rw [← List.map_cons, foldVals_arithV]
+
+/-- End to end, `/` with exactly one argument `x`: the reciprocal `1 / x` (integer `1`, so the
+    truncating division for an integer `x`, the IEEE division for a float `x`); a zero `x`
+    (integer or float) is refused (`Undefined`). -/
+theorem div_single_nums (r : Rec) (hr : SelfEval r) (args : Val) (x : Num)
+    (h : args.elems = [x.toVal]) (c : Ctx) :
+    callBuiltin r .div args c =
+      if isZeroNum x.toVal then (.err .undefined, c)
+      else liftNum (arith .div (.i 1) x) c := by
+  rw [div_dispatch, bind_apply, M.bind_ok (evalEach_nums r hr args [x] h c)]
+  simp only [List.map_cons, List.map_nil]
+  split
+  · rfl
+  · exact congrFun (arithV_nums .div (.i 1) x) c
+
+/-- the truncated reciprocal of an integer: `x` itself for `x = ±1`, else `0` -/
+theorem tdiv_one (x : Int) :
+    Int.tdiv 1 x = if x = 1 then 1 else if x = -1 then -1 else 0 := by
+  by_cases h1 : x = 1
+  · subst h1; rfl
+  · by_cases h2 : x = -1
+    · subst h2; rfl
+    · rw [if_neg h1, if_neg h2]
+      by_cases h0 : x = 0
+      · subst h0; rfl
+      · apply Int.natAbs_eq_zero.mp
+        rw [Int.natAbs_tdiv]
+        show 1 / x.natAbs = 0
+        exact Nat.div_eq_of_lt (by omega)
+
+/-- `(/ x)` on an integer `x ≠ 0`: the integer `Int.tdiv 1 x` — that is `x` for `x = ±1`, else `0`
+    — never an error. -/
+theorem div_single_int (r : Rec) (hr : SelfEval r) (args : Val) (x : Int) (hx : x ≠ 0)
+    (h : args.elems = [.int x]) (c : Ctx) :
+    callBuiltin r .div args c = (.ok (.int (Int.tdiv 1 x)), c)
+    ∧ Int.tdiv 1 x = (if x = 1 then 1 else if x = -1 then -1 else 0) := by
+  refine ⟨?_, tdiv_one x⟩
+  rw [div_single_nums r hr args (.i x) h c]
+  have hz : isZeroNum (Num.i x).toVal = false := by
+    simp [Num.toVal, isZeroNum, hx]
+  rw [hz, int_exact]
+  have hin : inI64 (Int.tdiv 1 x) = true := by
+    rw [tdiv_one]; split
+    · decide
+    · split <;> decide
+  simp [hx, hin, iopZ, liftNum, Num.toVal]
+
+/-- `(/ x)` on a float `x` that is not zero: the IEEE quotient of `1` (converted) by `x`, a float. -/
+theorem div_single_float (r : Rec) (hr : SelfEval r) (args : Val) (x : UInt64)
+    (hx : (Float.ofBits x == 0.0) = false) (h : args.elems = [.float x]) (c : Ctx) :
+    callBuiltin r .div args c
+      = (.ok (.float (Float.ofBits (intToF64 1) / Float.ofBits x).toBits), c) := by
+  rw [div_single_nums r hr args (.f x) h c]
+  have hz : isZeroNum (Num.f x).toVal = false := hx
+  rw [hz]; rfl
+
+/-- `(/ 0)` and `(/ 0.0)`, `(/ -0.0)`: the single argument is a zero — the `Undefined` error. -/
+theorem div_single_zero (r : Rec) (hr : SelfEval r) (args : Val) (x : Num)
+    (hx : isZeroNum x.toVal = true) (h : args.elems = [x.toVal]) (c : Ctx) :
+    callBuiltin r .div args c = (.err .undefined, c) := by
+  rw [div_single_nums r hr args x h c, hx]; rfl
+
+example : isZeroNum (Num.i 0).toVal = true := rfl
+example (x : UInt64) (h : (Float.ofBits x == 0.0) = true) : isZeroNum (Num.f x).toVal = true := h
 
 /-- End to end, `mod` -/
 theorem mod_nums (r : Rec) (hr : SelfEval r) (i j : Nat) (a b : Num) (d : Val) (c : Ctx) :
@@ -985,7 +1225,42 @@ example : SelfEval (Rec.ofDepth 1) := selfEval_ofDepth 0
 example (c : Ctx) :
     callBuiltin (Rec.ofDepth 3) .add
       (consList [(7, .int 1), (8, .int 2), (9, .int 3)] .nil) c = (.ok (.int 6), c) := by
-  rw [add_dispatch, reduceWith_arith_nums _ (selfEval_ofDepth 2) .add _ (.i 1) [.i 2, .i 3] rfl]
+  rw [add_dispatch, reduceWith_arith_nums _ (selfEval_ofDepth 2) .add _ (.i 1) [.i 2, .i 3] rfl rfl]
+  rfl
+
+/-- proper / improper argument lists: hypotheses of `reduceRest_eq_foldVals`, `reduceRest_pure`,
+    `reduceWith_arith_nums` … and of their `_improper` counterparts -/
+example : (consList [(7, .int 1), (8, .int 2)] .nil).spine.2 = .nil := rfl
+example : (consList [(7, .int 1), (8, .int 2)] (.int 3)).spine.2 ≠ .nil := by
+  rw [spine_snd_consList]; simp [Val.spine]
+/-- `(+ 1 2 . 3)`, `(+ 1 . 2)` and `(+ . 5)` at depth 3: type errors -/
+example (c : Ctx) :
+    callBuiltin (Rec.ofDepth 3) .add (consList [(7, .int 1), (8, .int 2)] (.int 3)) c
+      = (.err .typeMismatch, c) := by
+  rw [add_dispatch, reduceWith_arith_nums_improper_rejects _ (selfEval_ofDepth 2) .add _ (.i 1)
+    [.i 2] (by rw [spine_snd_consList]; simp [Val.spine]) rfl]
+  rfl
+example (c : Ctx) :
+    callBuiltin (Rec.ofDepth 3) .add (.cons 7 (.int 1) (.int 2)) c = (.err .typeMismatch, c) := by
+  rw [add_dispatch]
+  exact reduceWith_dotted_rejects _ _ 7 (.int 1) (.int 2) (.int 1) c c rfl (by simp) rfl
+example (c : Ctx) :
+    callBuiltin (Rec.ofDepth 3) .add (.int 5) c = (.err .typeMismatch, c) := by
+  rw [add_dispatch, reduceWith_atom_rejects _ _ (.int 5) rfl (by simp)]; rfl
+/-- `(+ 9223372036854775807 1 . 3)`: the fold overflows before the dotted tail is reached -/
+example (c : Ctx) :
+    callBuiltin (Rec.ofDepth 3) .add
+      (consList [(7, .int 9223372036854775807), (8, .int 1)] (.int 3)) c
+      = (.err .outOfRange, c) := by
+  rw [add_dispatch, reduceWith_arith_nums_improper_rejects _ (selfEval_ofDepth 2) .add _
+    (.i 9223372036854775807) [.i 1] (by rw [spine_snd_consList]; simp [Val.spine]) rfl]
+  rfl
+/-- `(max 1 2 . 3)`: a type error -/
+example (c : Ctx) :
+    callBuiltin (Rec.ofDepth 3) .max_ (consList [(7, .int 1), (8, .int 2)] (.int 3)) c
+      = (.err .typeMismatch, c) := by
+  rw [max_dispatch, reduceWith_maxMin_nums_improper _ (selfEval_ofDepth 2) true _ (.i 1)
+    [.i 2] (by rw [spine_snd_consList]; simp [Val.spine]) rfl]
   rfl
 
 /-- hypotheses of `int_fold_ok` -/
@@ -1025,7 +1300,25 @@ example (c : Ctx) :
 example (c : Ctx) :
     callBuiltin (Rec.ofDepth 1) .div (.cons 0 (.int (-7)) (.cons 1 (.int 2) .nil)) c
       = (.ok (.int (-3)), c) := by
-  rw [div_nums _ (selfEval_ofDepth 0) _ (.i (-7)) [.i 2] rfl]
+  rw [div_nums _ (selfEval_ofDepth 0) _ (.i (-7)) (.i 2) [] rfl]
+  rfl
+/-- `(/ 2)`, `(/ -1)`, `(/ 0)` end to end: the truncated reciprocal, or `Undefined` -/
+example (c : Ctx) :
+    callBuiltin (Rec.ofDepth 1) .div (.cons 0 (.int 2) .nil) c = (.ok (.int 0), c) :=
+  (div_single_int _ (selfEval_ofDepth 0) _ 2 (by decide) rfl c).1
+example (c : Ctx) :
+    callBuiltin (Rec.ofDepth 1) .div (.cons 0 (.int (-1)) .nil) c = (.ok (.int (-1)), c) :=
+  (div_single_int _ (selfEval_ofDepth 0) _ (-1) (by decide) rfl c).1
+example (c : Ctx) :
+    callBuiltin (Rec.ofDepth 1) .div (.cons 0 (.int 0) .nil) c = (.err .undefined, c) :=
+  div_single_zero _ (selfEval_ofDepth 0) _ (.i 0) rfl rfl c
+/- The float hypotheses of `div_single_float` / `div_single_zero` (`Float.ofBits x == 0.0`) cannot
+   be instantiated on a concrete bit pattern inside the kernel: Lean's `Float` is opaque. -/
+/-- `(/ 7 2 0)`: a zero among the divisors -/
+example (c : Ctx) :
+    callBuiltin (Rec.ofDepth 1) .div
+      (.cons 0 (.int 7) (.cons 1 (.int 2) (.cons 2 (.int 0) .nil))) c = (.err .undefined, c) := by
+  rw [div_nums _ (selfEval_ofDepth 0) _ (.i 7) (.i 2) [.i 0] rfl]
   rfl
 
 end Tulisp.C13
